@@ -46,6 +46,9 @@ def bits_f64(b):
 def sh(cmd, cwd=None, timeout=3600, env=None):
     e = dict(os.environ)
     e.pop("RUSTFLAGS", None)
+    e.pop("CARGO_BUILD_TARGET_DIR", None)
+    e.pop("CARGO_ENCODED_RUSTFLAGS", None)
+    e["CARGO_TARGET_DIR"] = os.path.join(BUILD, "cargo-target")     # never a directory inherited from the caller
     e["CARGO_NET_OFFLINE"] = "true"
     if env:
         e.update(env)
